@@ -77,6 +77,14 @@ def build(seed: int, cfg: dict):
             ms.append(rng.choice([1 << rng.randrange(9), workload.ALL ^ (1 << rng.randrange(9)), rng.randrange(512)]))
         for m in ms:
             add(b["text"], "auto", "auto", m, b["id"], "sweep-wide")
+    # twin-joined variants (program + renamed copy + statements joining both bodies): two equally good
+    # candidates wherever a pass looks for "the" at-most-one / min-max / sum predicate of a body
+    for b in workload.load_twin():
+        ms = [workload.DEFAULT, workload.ALL][: cfg["wide_masks"]]
+        while len(ms) < cfg["wide_masks"]:
+            ms.append(rng.choice([1 << rng.randrange(9), workload.ALL ^ (1 << rng.randrange(9)), rng.randrange(512)]))
+        for m in ms:
+            add(b["text"], "auto", "auto", m, b["id"], "sweep-twin")
     multi = [b for b in safe if b["text"].count(".") >= 2]
     n = 0
     guard = 0
@@ -339,7 +347,8 @@ def run(args) -> int:
             k = (oc, targets[b["wit"]["t"]]["text"])
             (later if k in seen_text else first).append((oc, b))
             seen_text.add(k)
-        for oc, b in (first + later)[:96]:
+        slow = [(oc, b) for oc, b in first + later if oc.startswith("DIVERGED")]
+        for oc, b in [x for x in first + later if not x[0].startswith("DIVERGED")][:96]:
             tgt = targets[b["wit"]["t"]]
             minjobs.append(
                 {
@@ -355,6 +364,10 @@ def run(args) -> int:
             minmeta.append((oc, b))
         minres = pool.run(minjobs) if minjobs else []
         reported = set()
+        # divergence is reported as found (every probe of a minimiser would cost a full cap again)
+        for oc, b in slow[:4]:
+            minmeta.append((oc, b))
+            minres.append({"status": "skip", "events": []})
         for (oc, b), r in zip(minmeta, minres):
             evs = [e for e in r["events"] if e.get("op") == "exc_min"]
             mn = evs[0].get("min") if r["status"] == "ok" and evs else None
@@ -366,6 +379,8 @@ def run(args) -> int:
             if key in reported:
                 continue
             reported.add(key)
+            if nrep >= 12:
+                break
             kf = next((k for k in known if k.get("property") == "C03" and k.get("outcome") == oc and k.get("canonical") == canon and k.get("mask") == mn["mask"]), None)
             if kf is not None:
                 if not any(x.startswith(kf["id"] + ":") for x in known_lines):
@@ -387,6 +402,8 @@ def run(args) -> int:
             violations.append({"replay": common.write_replay("C03", seed, nrep, doc)})
             nrep += 1
         for b in bad:
+            if nrep >= 12:
+                break
             if b["kind"] == "outcome" and b["faulted"]:
                 job = next(j for j in jobs if j.get("w") == b["wit"]["w"] and b["wit"]["t"] in j.get("targets", {}))
                 op = next(o for o in job["ops"] if o.get("t") == b["wit"]["t"] and o["op"] == "opt_fault")
